@@ -123,6 +123,7 @@ impl GenerationCache {
             return_type: &'a str,
             is_async: bool,
             channels: Vec<ChannelHashData<'a>>,
+            serde_rename_all: Option<String>,
         }
 
         #[derive(Serialize)]
@@ -130,6 +131,7 @@ impl GenerationCache {
             name: &'a str,
             rust_type: &'a str,
             is_optional: bool,
+            serde_rename: Option<&'a str>,
         }
 
         #[derive(Serialize)]
@@ -138,7 +140,13 @@ impl GenerationCache {
             message_type: &'a str,
         }
 
-        let hash_data: Vec<CommandHashData> = commands
+        // Sort by (file, name): the discovery order follows HashMap iteration order
+        let mut sorted_commands: Vec<&CommandInfo> = commands.iter().collect();
+        sorted_commands.sort_by(|a, b| {
+            (a.file_path.as_str(), a.name.as_str()).cmp(&(b.file_path.as_str(), b.name.as_str()))
+        });
+
+        let hash_data: Vec<CommandHashData> = sorted_commands
             .iter()
             .map(|cmd| CommandHashData {
                 name: &cmd.name,
@@ -150,6 +158,7 @@ impl GenerationCache {
                         name: &p.name,
                         rust_type: &p.rust_type,
                         is_optional: p.is_optional,
+                        serde_rename: p.serde_rename.as_deref(),
                     })
                     .collect(),
                 return_type: &cmd.return_type,
@@ -162,6 +171,7 @@ impl GenerationCache {
                         message_type: &c.message_type,
                     })
                     .collect(),
+                serde_rename_all: cmd.serde_rename_all.map(|r| format!("{:?}", r)),
             })
             .collect();
 
@@ -177,6 +187,7 @@ impl GenerationCache {
             file_path: &'a str,
             is_enum: bool,
             fields: Vec<FieldHashData<'a>>,
+            serde_rename_all: Option<String>,
         }
 
         #[derive(Serialize)]
@@ -185,6 +196,8 @@ impl GenerationCache {
             rust_type: &'a str,
             is_optional: bool,
             is_public: bool,
+            serde_rename: Option<&'a str>,
+            validator_attributes: Option<&'a crate::models::ValidatorAttributes>,
         }
 
         // Sort by name for deterministic ordering
@@ -205,8 +218,11 @@ impl GenerationCache {
                         rust_type: &f.rust_type,
                         is_optional: f.is_optional,
                         is_public: f.is_public,
+                        serde_rename: f.serde_rename.as_deref(),
+                        validator_attributes: f.validator_attributes.as_ref(),
                     })
                     .collect(),
+                serde_rename_all: s.serde_rename_all.map(|r| format!("{:?}", r)),
             })
             .collect();
 
@@ -220,17 +236,19 @@ impl GenerationCache {
         struct ConfigHashData<'a> {
             validation_library: &'a str,
             include_private: bool,
-            type_mappings: Option<&'a HashMap<String, String>>,
+            type_mappings: Option<std::collections::BTreeMap<&'a String, &'a String>>,
             default_parameter_case: &'a str,
             default_field_case: &'a str,
+            visualize_deps: bool,
         }
 
         let hash_data = ConfigHashData {
             validation_library: &config.validation_library,
             include_private: config.include_private.unwrap_or(false),
-            type_mappings: config.type_mappings.as_ref(),
+            type_mappings: config.type_mappings.as_ref().map(|m| m.iter().collect()),
             default_parameter_case: &config.default_parameter_case,
             default_field_case: &config.default_field_case,
+            visualize_deps: config.visualize_deps.unwrap_or(false),
         };
 
         let json = serde_json::to_string(&hash_data)?;
